@@ -351,7 +351,7 @@ class Contract:
                  inline=(), inline_only=False, slice=None, class_attrs=None, writes=(), note="", shape_bound=4,
                  native=None, name=None, self_spec=None, max_shapes=60, crosscheck=True, refute=True, assumed=False,
                  native_call=None, cases_filter=None, gen=None, native_ok=True, compare_native=None, slice_note=None,
-                 not_decided=(), lemmas=None, ghost_after=None, ghost_on=(), finite=None, locate=None, curry=(), finite_native=None, lib=None):
+                 not_decided=(), lemmas=None, ghost_after=None, ghost_on=(), finite=None, locate=None, curry=(), finite_native=None, lib=None, may_raise=(), abstract_nl=True):
         self.target = target
         self.props = list(props)
         self.params = dict(params or {})
@@ -384,6 +384,8 @@ class Contract:
         self.ghost_after = dict(ghost_after or {})
         self.ghost_on = list(ghost_on)    # [(predicate(ast stmt) -> bool, ghost(view) -> commands)] run after matching statements
         self.finite_native = finite_native  # finite_native(obligation id) -> (fails natively: bool, text)
+        self.may_raise = tuple(may_raise)  # exception classes that are acceptable outcomes without a stated condition
+        self.abstract_nl = abstract_nl    # False: integer * // % stay interpreted (small nonlinear problems, e.g. bounded case splits)
         self.libname = lib                # None: plain library models; 'obs': observable-valued scalars (lib_obs)
         self.finite = finite              # finite(registry) -> list of (id, ok, detail): exhaustive exact decision
         self.curry = tuple(curry)         # parameters applied to the function value returned by a lambda-returning lambda
@@ -468,6 +470,13 @@ class Contract:
             if self.curry:
                 v = interp.call(v, [args[c] for c in self.curry], {}, fnode)
             return v
+        if self.curry:
+            env2 = Env(None)
+            for k, v in args.items():
+                if k not in self.curry:
+                    env2.set(k, v)
+            v = interp.run_body(fnode.body, env2)
+            return interp.call(v, [args[c] for c in self.curry], {}, fnode)
         # defaults for parameters not given
         a = fnode.args
         params = [p.arg for p in a.posonlyargs + a.args]
